@@ -84,12 +84,27 @@ def gen_boundary_cases(rng, tier):
         yield "str_run " + " ".join(fmt_arg(x) for x in [[64, len(flat(recs))], [3], w] + ops), ["boundary-flag"]
 
 
+def gen_maxrecord_cases(rng, tier):
+    """request 1's Stdin is ONE maximum-size record (65535 bytes + 1 padding byte) left wholly unread, on a buffer large enough
+    to hold it at once: the next request parser skips it in a single step"""
+    for B in ([131072] if tier == "quick" else [65792, 131072, 200000]):
+        for (P, pad) in ((65535, 1), (65535, 0), (65534, 2), (65530, 255)):
+            recs = minimal_preamble(1, 1) + [record(STDIN, 1, [rng.randrange(256) for _ in range(P)], pad), record(STDIN, 1, [], 0)]
+            nxt = flat(minimal_preamble(2, 1, pairs=[(b"K", b"v")]))
+            w = flat(recs) + nxt
+            first = len(flat(minimal_preamble(1, 1)))
+            # the client sends the whole of request 1 at once; the stream parser is converted back without reading anything
+            ops = [[6, len(nxt)], [8]]
+            yield "str_run " + " ".join(fmt_arg(x) for x in [[B, len(flat(recs))], [3], w] + ops), ["chain", "k2", "max-record"]
+
+
 _gen_cases_chain = gen_cases
 
 
 def gen_cases(rng, tier):
     yield from _gen_cases_chain(rng, tier)
     yield from gen_boundary_cases(rng, tier)
+    yield from gen_maxrecord_cases(rng, tier)
 
 
 def a_gate(ops, o, wire):
@@ -147,7 +162,7 @@ def nontrivial(line, tags):
 
 
 def min_classes(tier):
-    return {"k2": 80, "k3": 80, "k4": 80, "into-input": 100, "boundary-flag": 6}
+    return {"k2": 80, "k3": 80, "k4": 80, "into-input": 100, "boundary-flag": 6, "max-record": 4}
 
 
 def oracle(line, impl_line):
